@@ -201,39 +201,83 @@ func BuildWill(a *ref.Packet) (*mq.Publish, error) {
 // Build constructs the library packet for a through the public constructors
 // and setters only.
 func Build(a *ref.Packet) (mq.Packet, error) {
-	t := int(a.Type)
-	dst := New(t)
+	dst := New(int(a.Type))
 	if dst == nil {
-		return nil, fmt.Errorf("%w: packet type %d", ErrNoSetter, t)
+		return nil, fmt.Errorf("%w: packet type %d", ErrNoSetter, a.Type)
 	}
+	if err := apply(dst, a, false); err != nil {
+		return nil, err
+	}
+	return dst, nil
+}
+
+// BuildStaged builds a in two stages: everything but the last properties,
+// then — after observe has looked at the half-built packet (String, WriteTo,
+// Dump, ...) — the remaining property setters. split is the number of
+// properties set in the first stage.
+func BuildStaged(a *ref.Packet, split int, observe func(mq.Packet)) (mq.Packet, error) {
+	dst := New(int(a.Type))
+	if dst == nil {
+		return nil, fmt.Errorf("%w: packet type %d", ErrNoSetter, a.Type)
+	}
+	if split > len(a.Props) {
+		split = len(a.Props)
+	}
+	first := *a
+	first.Props = a.Props[:split]
+	if err := apply(dst, &first, false); err != nil {
+		return nil, err
+	}
+	observe(dst)
+	rest := *a
+	rest.Props = a.Props[split:]
+	if err := apply(dst, &rest, true); err != nil {
+		return nil, err
+	}
+	return dst, nil
+}
+
+// apply calls the setters for a on dst; with propsOnly only the property
+// setters (and AddUserProp) for a.Props.
+func apply(dst mq.Packet, a *ref.Packet, propsOnly bool) error {
+	t := int(a.Type)
 	if t != ref.TPublish && a.Flags != ref.ReservedFlags(t) {
-		return nil, fmt.Errorf("%w: header flags on %T", ErrNoSetter, dst)
+		return fmt.Errorf("%w: header flags on %T", ErrNoSetter, dst)
+	}
+	if propsOnly {
+		// run the per-type code below on a packet description that has
+		// nothing but the properties: the scalar setters are skipped by
+		// the guards, list adders see empty lists
+		b := ref.Packet{Type: a.Type, Flags: a.Flags, Props: a.Props}
+		a = &b
 	}
 	switch p := dst.(type) {
 	case *mq.Connect:
-		if a.ProtoName != "MQTT" {
-			p.SetProtocolName(a.ProtoName)
-		}
-		if a.ProtoVer != 5 {
-			p.SetProtocolVersion(a.ProtoVer)
-		}
-		if a.ConnFlags&ref.CFReserved != 0 {
-			return nil, fmt.Errorf("%w: reserved connect flag", ErrNoSetter)
-		}
-		p.SetCleanStart(a.ConnFlags&ref.CFCleanStart != 0)
-		p.SetKeepAlive(a.KeepAlive)
-		p.SetClientID(a.ClientID)
-		if a.ConnFlags&ref.CFUsername != 0 {
-			if a.Username == "" {
-				return nil, fmt.Errorf("%w: empty user name with flag", ErrNoSetter)
+		if !propsOnly {
+			if a.ProtoName != "MQTT" {
+				p.SetProtocolName(a.ProtoName)
 			}
-			p.SetUsername(a.Username)
-		}
-		if a.ConnFlags&ref.CFPassword != 0 {
-			if len(a.Password) == 0 {
-				return nil, fmt.Errorf("%w: empty password with flag", ErrNoSetter)
+			if a.ProtoVer != 5 {
+				p.SetProtocolVersion(a.ProtoVer)
 			}
-			p.SetPassword(a.Password)
+			if a.ConnFlags&ref.CFReserved != 0 {
+				return fmt.Errorf("%w: reserved connect flag", ErrNoSetter)
+			}
+			p.SetCleanStart(a.ConnFlags&ref.CFCleanStart != 0)
+			p.SetKeepAlive(a.KeepAlive)
+			p.SetClientID(a.ClientID)
+			if a.ConnFlags&ref.CFUsername != 0 {
+				if a.Username == "" {
+					return fmt.Errorf("%w: empty user name with flag", ErrNoSetter)
+				}
+				p.SetUsername(a.Username)
+			}
+			if a.ConnFlags&ref.CFPassword != 0 {
+				if len(a.Password) == 0 {
+					return fmt.Errorf("%w: empty password with flag", ErrNoSetter)
+				}
+				p.SetPassword(a.Password)
+			}
 		}
 		for _, x := range a.Props {
 			switch x.ID {
@@ -255,13 +299,13 @@ func Build(a *ref.Packet) (mq.Packet, error) {
 				p.SetAuthData(x.B)
 			case 0x26:
 			default:
-				return nil, noSetter(x.ID, p)
+				return noSetter(x.ID, p)
 			}
 		}
 		if a.HasWill() {
 			w, err := BuildWill(a)
 			if err != nil {
-				return nil, err
+				return err
 			}
 			p.SetWill(w)
 			for _, x := range a.WillProps {
@@ -270,16 +314,18 @@ func Build(a *ref.Packet) (mq.Packet, error) {
 				}
 			}
 		} else if a.ConnFlags&(ref.CFWillQoS|ref.CFWillRetain) != 0 {
-			return nil, fmt.Errorf("%w: will bits without will", ErrNoSetter)
+			return fmt.Errorf("%w: will bits without will", ErrNoSetter)
 		}
 	case *mq.ConnAck:
-		if a.AckFlags&0xfe != 0 {
-			return nil, fmt.Errorf("%w: reserved acknowledge flags", ErrNoSetter)
+		if !propsOnly {
+			if a.AckFlags&0xfe != 0 {
+				return fmt.Errorf("%w: reserved acknowledge flags", ErrNoSetter)
+			}
+			if a.AckFlags&1 != 0 {
+				p.SetSessionPresent(true)
+			}
+			p.SetReasonCode(mq.ReasonCode(a.Reason))
 		}
-		if a.AckFlags&1 != 0 {
-			p.SetSessionPresent(true)
-		}
-		p.SetReasonCode(mq.ReasonCode(a.Reason))
 		for _, x := range a.Props {
 			switch x.ID {
 			case 0x11:
@@ -316,18 +362,20 @@ func Build(a *ref.Packet) (mq.Packet, error) {
 				p.SetAuthData(x.B)
 			case 0x26:
 			default:
-				return nil, noSetter(x.ID, p)
+				return noSetter(x.ID, p)
 			}
 		}
 	case *mq.Publish:
-		p.SetDuplicate(a.Flags&8 != 0)
-		p.SetRetain(a.Flags&1 != 0)
-		p.SetQoS(a.QoS())
-		p.SetTopicName(a.Topic)
-		if q := a.QoS(); q == 1 || q == 2 {
-			p.SetPacketID(a.PacketID)
+		if !propsOnly {
+			p.SetDuplicate(a.Flags&8 != 0)
+			p.SetRetain(a.Flags&1 != 0)
+			p.SetQoS(a.QoS())
+			p.SetTopicName(a.Topic)
+			if q := a.QoS(); q == 1 || q == 2 {
+				p.SetPacketID(a.PacketID)
+			}
+			p.SetPayload(a.Payload)
 		}
-		p.SetPayload(a.Payload)
 		for _, x := range a.Props {
 			switch x.ID {
 			case 0x01:
@@ -346,62 +394,76 @@ func Build(a *ref.Packet) (mq.Packet, error) {
 				p.AddSubscriptionID(x.N)
 			case 0x26:
 			default:
-				return nil, noSetter(x.ID, p)
+				return noSetter(x.ID, p)
 			}
 		}
 	case *mq.Subscribe:
-		p.SetPacketID(a.PacketID)
+		if !propsOnly {
+			p.SetPacketID(a.PacketID)
+		}
 		for _, x := range a.Props {
 			switch x.ID {
 			case 0x0b:
 				p.SetSubscriptionID(int(x.N))
 			case 0x26:
 			default:
-				return nil, noSetter(x.ID, p)
+				return noSetter(x.ID, p)
 			}
 		}
 		for _, s := range a.Subs {
 			p.AddFilters(mq.NewTopicFilter(s.Filter, mq.Opt(s.Opts)))
 		}
 	case *mq.Unsubscribe:
-		p.SetPacketID(a.PacketID)
+		if !propsOnly {
+			p.SetPacketID(a.PacketID)
+		}
 		for _, x := range a.Props {
 			if x.ID != 0x26 {
-				return nil, noSetter(x.ID, p)
+				return noSetter(x.ID, p)
 			}
 		}
 		for _, s := range a.Unsubs {
 			p.AddFilter(s)
 		}
 	case *mq.SubAck:
-		p.SetPacketID(a.PacketID)
+		if !propsOnly {
+			p.SetPacketID(a.PacketID)
+		}
 		for _, c := range a.Codes {
 			p.AddReasonCode(mq.ReasonCode(c))
 		}
 		if err := ackProps(p, a.Props); err != nil {
-			return nil, err
+			return err
 		}
 	case *mq.UnsubAck:
-		p.SetPacketID(a.PacketID)
+		if !propsOnly {
+			p.SetPacketID(a.PacketID)
+		}
 		for _, c := range a.Codes {
 			p.AddReasonCode(mq.ReasonCode(c))
 		}
 		if err := ackProps(p, a.Props); err != nil {
-			return nil, err
+			return err
 		}
 	case *mq.PubAck, *mq.PubRec, *mq.PubRel, *mq.PubComp:
-		dst.(setPID).SetPacketID(a.PacketID)
-		dst.(setRC).SetReasonCode(mq.ReasonCode(a.Reason))
+		if !propsOnly {
+			dst.(setPID).SetPacketID(a.PacketID)
+			dst.(setRC).SetReasonCode(mq.ReasonCode(a.Reason))
+		}
 		if err := ackProps(dst, a.Props); err != nil {
-			return nil, err
+			return err
 		}
 	case *mq.Disconnect:
-		p.SetReasonCode(mq.ReasonCode(a.Reason))
+		if !propsOnly {
+			p.SetReasonCode(mq.ReasonCode(a.Reason))
+		}
 		if err := ackProps(p, a.Props); err != nil {
-			return nil, err
+			return err
 		}
 	case *mq.Auth:
-		p.SetReasonCode(mq.ReasonCode(a.Reason))
+		if !propsOnly {
+			p.SetReasonCode(mq.ReasonCode(a.Reason))
+		}
 		for _, x := range a.Props {
 			switch x.ID {
 			case 0x15:
@@ -412,15 +474,12 @@ func Build(a *ref.Packet) (mq.Packet, error) {
 				p.SetReasonString(x.S)
 			case 0x26:
 			default:
-				return nil, noSetter(x.ID, p)
+				return noSetter(x.ID, p)
 			}
 		}
 	case *mq.PingReq, *mq.PingResp:
 	}
-	if err := userProps(dst, a.Props); err != nil {
-		return nil, err
-	}
-	return dst, nil
+	return userProps(dst, a.Props)
 }
 
 // ackProps applies reason string / session expiry / server reference through
